@@ -2622,6 +2622,162 @@ def inline_generators(tree, modname, table=None):
   return count
 
 
+def _load_shape():
+  p = os.path.join(os.path.dirname(os.path.abspath(__file__)), 'canon_shape.json')
+  try:
+    with open(p) as f:
+      return json.load(f)
+  except (OSError, ValueError):
+    return None
+
+
+def collect_generators(tree, modname, table=None):
+  """A private reference function that was a plain function and is now a generator, every call of which is drained on the
+  spot (`list(F(..))`, `sep.join(F(..))`, `L.extend(F(..))`, `sorted(F(..))`, `tuple(F(..))`): read it back as the
+  function that collects what it yields.  When every caller joins the result with one and the same constant separator,
+  the join is moved to the function's return (formatting a fresh list of strings is unobservable either side of the call)."""
+  table = table if table is not None else _load_table()
+  ref_mod = table.get(modname)
+  shape = _load_shape()
+  if not ref_mod or shape is None:
+    return 0
+  ref_gens = set(shape.get(modname, ()))
+  from .canon import _functions
+  count = 0
+  for q, fn in _functions(tree, modname):
+    if q not in ref_mod or q in ref_gens or not isinstance(fn, ast.FunctionDef) or not fn.name.startswith('_') or fn.name.startswith('__'):
+      continue
+    if q.count('.') != 1 or fn.decorator_list:
+      continue      # module-level private functions only: every reference is a Name in this module
+    own = list(_own_walk(fn))
+    ys = [n for n in own if isinstance(n, (ast.Yield, ast.YieldFrom))]
+    if not ys:
+      continue
+    stmts = {id(n.value): n for n in own if isinstance(n, ast.Expr)}
+    if not all(id(y) in stmts for y in ys) or any(isinstance(n, ast.Return) and n.value is not None for n in own):
+      continue
+    if any(isinstance(y, ast.Yield) and y.value is None for y in ys):
+      continue
+    # every reference to the name is a call consumed at once
+    parents = {}
+    for n in ast.walk(tree):
+      for c in ast.iter_child_nodes(n):
+        parents[id(c)] = n
+    uses = [n for n in ast.walk(tree) if isinstance(n, ast.Name) and n.id == fn.name and isinstance(n.ctx, ast.Load)]
+    sites = []
+    ok = bool(uses)
+    for n in uses:
+      call = parents.get(id(n))
+      if not (isinstance(call, ast.Call) and call.func is n):
+        ok = False
+        break
+      cons = parents.get(id(call))
+      if not (isinstance(cons, ast.Call) and len(cons.args) == 1 and cons.args[0] is call and not cons.keywords):
+        ok = False
+        break
+      if isinstance(cons.func, ast.Name) and cons.func.id in ('list', 'tuple', 'sorted'):
+        sites.append((cons.func.id, call, cons))
+      elif isinstance(cons.func, ast.Attribute) and cons.func.attr == 'join' and isinstance(cons.func.value, ast.Constant) \
+          and isinstance(cons.func.value.value, str):
+        sites.append(('join', call, cons))
+      elif isinstance(cons.func, ast.Attribute) and cons.func.attr == 'extend':
+        sites.append(('extend', call, cons))
+      else:
+        ok = False
+        break
+    if not ok:
+      continue
+    acc = '__acc_' + fn.name.strip('_')
+
+    def conv(stmts_):
+      for i, st in enumerate(stmts_):
+        if isinstance(st, ast.Expr) and isinstance(st.value, ast.Yield):
+          new = ast.Expr(value=ast.Call(func=ast.Attribute(value=ast.Name(id=acc, ctx=ast.Load()), attr='append', ctx=ast.Load()),
+                                        args=[st.value.value], keywords=[]))
+          stmts_[i] = ast.copy_location(new, st)
+        elif isinstance(st, ast.Expr) and isinstance(st.value, ast.YieldFrom):
+          new = ast.Expr(value=ast.Call(func=ast.Attribute(value=ast.Name(id=acc, ctx=ast.Load()), attr='extend', ctx=ast.Load()),
+                                        args=[st.value.value], keywords=[]))
+          stmts_[i] = ast.copy_location(new, st)
+        elif isinstance(st, ast.Return):
+          st.value = ast.Name(id=acc, ctx=ast.Load())
+        elif isinstance(st, (ast.FunctionDef, ast.AsyncFunctionDef, ast.ClassDef)):
+          continue
+        else:
+          for fld in ('body', 'orelse', 'finalbody'):
+            sub = getattr(st, fld, None)
+            if isinstance(sub, list):
+              conv(sub)
+          for h in getattr(st, 'handlers', []) or []:
+            conv(h.body)
+    conv(fn.body)
+    k = 1 if fn.body and isinstance(fn.body[0], ast.Expr) and isinstance(fn.body[0].value, ast.Constant) and isinstance(fn.body[0].value.value, str) else 0
+    init = ast.Assign(targets=[ast.Name(id=acc, ctx=ast.Store())], value=ast.List(elts=[], ctx=ast.Load()))
+    fn.body.insert(k, ast.copy_location(init, fn.body[min(k, len(fn.body) - 1)]))
+    fn.body.append(ast.copy_location(ast.Return(value=ast.Name(id=acc, ctx=ast.Load())), fn.body[-1]))
+    if isinstance(fn.returns, ast.AST):
+      fn.returns = None
+    # callers: list(F(..)) -> F(..)
+    for kind, call, cons in sites:
+      if kind == 'list':
+        par = parents.get(id(cons))
+        for fld, val in ast.iter_fields(par):
+          if val is cons:
+            setattr(par, fld, call)
+          elif isinstance(val, list):
+            for j, x in enumerate(val):
+              if x is cons:
+                val[j] = call
+        parents[id(call)] = par
+    # one separator at every use: the join belongs to the function
+    seps = set()
+    plans = []
+    for kind, call, cons in sites:
+      par = parents.get(id(call) if kind == 'list' else id(cons))
+      if kind == 'join':
+        seps.add(cons.func.value.value)
+        plans.append(('direct', cons, call, par))
+      elif kind == 'list' and isinstance(par, ast.Assign) and len(par.targets) == 1 and isinstance(par.targets[0], ast.Name):
+        t = par.targets[0].id
+        owner = None
+        for q2, f2 in _functions(tree, modname):
+          if any(x is par for x in ast.walk(f2)):
+            owner = f2      # innermost wins (later in the list)
+        if owner is None:
+          seps.add(None)
+          continue
+        loads = [n for n in _own_walk(owner) if isinstance(n, ast.Name) and n.id == t and isinstance(n.ctx, ast.Load)]
+        stores = [n for n in _own_walk(owner) if isinstance(n, ast.Name) and n.id == t and isinstance(n.ctx, ast.Store)]
+        j = parents.get(id(loads[0])) if len(loads) == 1 else None
+        if len(stores) == 1 and isinstance(j, ast.Call) and isinstance(j.func, ast.Attribute) and j.func.attr == 'join' \
+            and isinstance(j.func.value, ast.Constant) and isinstance(j.func.value.value, str) and j.args == [loads[0]] and not j.keywords:
+          seps.add(j.func.value.value)
+          plans.append(('temp', j, loads[0], parents.get(id(j))))
+        else:
+          seps.add(None)
+      else:
+        seps.add(None)
+    if len(seps) == 1 and None not in seps:
+      sep = seps.pop()
+      for st in _own_walk(fn):
+        if isinstance(st, ast.Return) and isinstance(st.value, ast.Name) and st.value.id == acc:
+          st.value = ast.Call(func=ast.Attribute(value=ast.Constant(value=sep), attr='join', ctx=ast.Load()),
+                              args=[ast.Name(id=acc, ctx=ast.Load())], keywords=[])
+      for kind, outer, inner, par in plans:
+        if par is None:
+          continue
+        for fld, val in ast.iter_fields(par):
+          if val is outer:
+            setattr(par, fld, inner)
+          elif isinstance(val, list):
+            for j_, x in enumerate(val):
+              if x is outer:
+                val[j_] = inner
+    ast.fix_missing_locations(tree)
+    count += 1
+  return count
+
+
 def lifted_candidates(tree, modname, table=None):
   """Names of new module-level functions that look like a reference closure that is missing now."""
   table = table if table is not None else _load_table()
@@ -2746,6 +2902,7 @@ def normalize(tree, modname):
     ast.fix_missing_locations(tree)
     return 0, b
   a = restore_function_names(tree, modname)
+  a += collect_generators(tree, modname)
   a += inline_generators(tree, modname)
   a += unlift(tree, modname)
   cands = lifted_candidates(tree, modname)
